@@ -154,3 +154,93 @@ func ruleQ6(c *an.Ctx) {
 	}
 	c.Floor("Q6", "AST fields that format methods must examine", n, 1)
 }
+
+// compileReach: the functions of package syntax statically reachable from (*Ast).compile.
+func compileReach(c *an.Ctx) map[*ssa.Function]bool {
+	in := map[*ssa.Function]bool{}
+	top := c.P.Func(pkgSyntax, "(*Ast).compile")
+	if top == nil {
+		return in
+	}
+	work := []*ssa.Function{top}
+	in[top] = true
+	for len(work) > 0 {
+		f := work[0]
+		work = work[1:]
+		for _, g := range an.WithAnon(f) {
+			an.Instrs(g, func(x ssa.Instruction) {
+				if cl := an.AsCallAny(x); cl != nil {
+					if callee := cl.Common().StaticCallee(); callee != nil && callee.Blocks != nil && callee.Pkg == top.Pkg && !in[callee] {
+						in[callee] = true
+						work = append(work, callee)
+					}
+				}
+			})
+		}
+	}
+	return in
+}
+
+// Q7: the formatter stops at the wildcard.  Compiling `* = self` appends one generated binding per
+// matched parameter to the SAME list, after the `*` entry (compileWildcard).  The text a program is
+// printed as must not contain them: the grammar allows nothing after `* = …`, so the
+// include-expanded source that Compile returns (and mrp records as _mrosource) would not parse
+// again.  While the compiler extends BindStms.List in place, every loop of BindStms.format that
+// prints bindings must leave the loop on the edge `binding.Id == "*"`.
+// The premise (a function reachable from Ast.compile stores append(List, …) back into
+// BindStms.List) is re-established on every run; without it the rule says nothing.
+func ruleQ7(c *an.Ctx) {
+	p := c.P
+	list := p.Field(pkgSyntax, "BindStms", "List")
+	id := p.Field(pkgSyntax, "BindStm", "Id")
+	format := c.NeedFunc(pkgSyntax, "(*BindStms).format")
+	elemFormat := p.Func(pkgSyntax, "(*BindStm).format")
+	if list == nil || id == nil || format == nil || elemFormat == nil {
+		return
+	}
+	premise := ""
+	for fn := range compileReach(c) {
+		for _, st := range an.StoresToField(fn, list) {
+			if args, ok := an.IsBuiltinCall(an.Strip(st.Val), "append"); ok && len(args) > 0 && an.LoadsField(args[0], list) {
+				premise = an.FnName(fn)
+			}
+		}
+	}
+	if premise == "" {
+		c.Info("Q7", "premise(compiler-extends-binding-list)", 0, "no function reachable from Ast.compile appends to BindStms.List: generated bindings are kept elsewhere, rule not applicable")
+		return
+	}
+	n := 0
+	for _, m := range familyOf(p, format, 2) {
+		for h, body := range naturalLoops(m) {
+			prints := false
+			for b := range body {
+				for _, in := range b.Instrs {
+					if an.CalleeIs(in, elemFormat) {
+						prints = true
+					}
+				}
+			}
+			if !prints {
+				continue
+			}
+			n++
+			stops := false
+			for b := range body {
+				for _, s := range b.Succs {
+					if body[s] {
+						continue
+					}
+					if an.EdgeHolds(b, s, func(r an.Rel) bool {
+						return r.Op == token.EQL && ((an.LoadsField(r.X, id) && an.IsStringConst(r.Y, "*")) || (an.LoadsField(r.Y, id) && an.IsStringConst(r.X, "*")))
+					}) {
+						stops = true
+					}
+				}
+			}
+			c.Check("Q7", "printing-stops-at-the-wildcard@"+an.FnName(m), h.Instrs[0].Pos(), stops,
+				"the loop that prints a binding list does not stop at the `*` entry, while "+premise+" appends the bindings generated for the wildcard to the same list: a compiled program is printed with bindings after `* = …`, which the parser rejects (the recorded _mrosource does not compile on its own)")
+		}
+	}
+	c.Floor("Q7", "loops printing bindings in BindStms.format", n, 1)
+}
